@@ -30,7 +30,8 @@ RULE = ('(a) timers: op histories (register single/repeating with interval from 
         'millisecond and the TimeInterval overloads with delays at the 32-bit boundaries of ms*1000 (4294967/4294968 '
         'ms, 2^31/1000, 90 min, 2 h, UINT_MAX ms, small ones), clock advanced to delay-1/delay/delay+1 and to the '
         'value a wrapping conversion would give; scale: 17/33/40/100 timers with equal and staggered deadlines at both '
-        'levels, the value ExecuteTimeouts returns compared as key rv; idle RunOnce(block) with the poller really '
+        'levels, the value ExecuteTimeouts returns compared as key rv; 8..100 cancelled-but-still-queued timers followed '
+        'by a self-cancelling repeating timer that returns true / a cancel from another callback / from outside; idle RunOnce(block) with the poller really '
         'sleeping on the virtual clock (epoll_wait/select interposed: the timeout the poller passes advances the '
         'clock), sub-millisecond distances to the deadline, early=1 if a callback runs before registration+interval.  non-trivial = at least one callback ran and at least one state-changing op (register/cancel) '
         'happened; distinct = distinct model output line.  (b) pollers: see gen_poller.py RULE.')
@@ -230,6 +231,28 @@ def _many_timer_cases(rng):
         yield 'S m%d,%d,%d;i0,%d,%d;y%d;y%d;x' % (rng.random() < 0.5, iv, n, iv * 1000 + 500, n // 2, iv * 1000, 1000)
 
 
+def _many_cancel_cases(rng, quick):
+    """scale: tens to hundreds of cancelled-but-still-queued timers, then the interesting cancels: a repeating
+    timer cancelling itself in its callback and returning true, a cancel from another callback, from outside"""
+    for n in ((8, 31, 32, 33, 64) if quick else (8, 16, 17, 31, 32, 33, 34, 40, 63, 64, 65, 100)):
+        for extra in (2, n // 2 + 2, n + 4):
+            if n + extra + 3 > 120:
+                continue
+            far = 1000
+            regs = ['r%d,%d,0' % (rng.random() < 0.5, far)] * (n + extra)        # long timers, slots 1..n+extra
+            cancels = ['c%d' % k for k in range(n)]                               # n of them cancelled, still queued
+            # a short repeating timer cancels itself (the (n+1)-th pending cancellation) and returns true
+            yield 'T ' + ';'.join(regs + cancels + ['r1,5,0', 'a5', 'x1:s', 'a5', 'x1', 'a5', 'x1', 'a%d' % far,
+                                                     'x' + '|'.join(['1'] * 6), 'a%d' % far, 'x1|1|1'])
+            # the threshold-crossing cancel comes from another timer's callback / from outside, then a new timer
+            yield 'T ' + ';'.join(regs + cancels + ['r1,5,0', 'r0,5,0', 'a5', 'x1:c%d|0' % (n + extra), 'a5', 'x1|1',
+                                                     'c%d' % (n + extra + 1), 'r0,3,0', 'a5', 'x1|1', 'a%d' % far,
+                                                     'x' + '|'.join(['0'] * 4)])
+            # cancel, let half of the cancelled ones come due, cancel more
+            yield 'T ' + ';'.join(['r0,%d,0' % (10 + k % 3) for k in range(n + extra)] + cancels +
+                                  ['a10', 'x', 'c0', 'c1', 'r1,2,0', 'a2', 'x1:s', 'a2', 'x1', 'a20', 'x'])
+
+
 def _sleep_case(rng):
     """idle RunOnce(block interval) with the poller sleeping on the virtual clock: sub-millisecond distances to
     the next deadline (EPoller sleeps whole milliseconds, SelectPoller the exact time)"""
@@ -257,6 +280,8 @@ def gen_cases(rng, tier):
     for _ in range(1 if quick else 20):
         for c in _many_timer_cases(rng):
             yield c
+    for c in _many_cancel_cases(rng, quick):
+        yield c
     for _ in range(300 if quick else 20000):
         yield _sleep_case(rng)
     for _ in range(400 if quick else 20000):
